@@ -5,7 +5,8 @@
     entry lists (tree level) and from abstract programs (macro level). *)
 From Coq Require Import Permutation.
 From DivanV Require Import Base.Res Model.Registry Model.Tree Model.Driver
-  Proofs.TreeBase Proofs.DriverExec Proofs.DriverC14 Proofs.TreeLeaves Proofs.Flat Proofs.FlatBridge Proofs.Expand.
+  Proofs.TreeBase Proofs.DriverExec Proofs.DriverC14 Proofs.TreeLeaves Proofs.Flat Proofs.FlatBridge Proofs.Expand
+  Proofs.TreeEquiv Proofs.ListView.
 Local Open Scope N_scope.
 
 (** The leaves of the tree are the registered entries — each exactly once, under
@@ -82,6 +83,42 @@ Theorem C12_guard_satisfiable :
   no_name_clash [w_bench_a] [w_mod_group] /\ ~ no_name_clash [w_bench_a] [w_mod_group; w_fn_group].
 Proof. exact no_name_clash_example. Qed.
 Print Assumptions C12_guard_satisfiable.
+
+(** Registration order changes the built tree itself only by the order of
+    siblings: permuting the benchmark entries and the group entries (distinct
+    group keys) gives [forest_equiv] trees — equal up to sibling order at every
+    level, group slots and argument lists included. *)
+Theorem C12_order_independent_tree : forall benches groups benches' groups',
+  Permutation benches benches' -> Permutation groups groups' -> NoDup (map group_key groups) ->
+  forest_equiv (build_tree benches groups) (build_tree benches' groups').
+Proof. exact tree_order_independent. Qed.
+Print Assumptions C12_order_independent_tree.
+
+(** A trie without empty parents is determined, up to sibling order, by the
+    chains of its leaves (what the previous theorem rests on). *)
+Theorem C12_trie_determined : forall T T',
+  trie_forest T -> forallb inhab T = true -> trie_forest T' -> forallb inhab T' = true ->
+  Permutation (LR T) (LR T') -> forest_equiv T T'.
+Proof. exact (fun T T' HT Hi HT' Hi' Hp =>
+  forest_determined T (proj2 (Forall_forall determined T) (fun t _ => all_determined t)) HT Hi T' HT' Hi' Hp). Qed.
+Print Assumptions C12_trie_determined.
+
+Theorem C12_built_tree_inhabited : forall benches groups, forallb inhab (build_tree benches groups) = true.
+Proof. exact inhab_build_tree. Qed.
+Print Assumptions C12_built_tree_inhabited.
+
+(** The [--list] view: for any sort, under the no-name-clash guard, the leaves
+    painted by the list action (marked ignored or not; parents left out) are, as a
+    multiset, the flat semantics' listing — every registered entry the filter
+    keeps (an argument entry if at least one of its arguments passes), under its
+    display path — and the walk does not panic. *)
+Theorem C12_list_view : forall srt, (forall t, forest_perm t (srt t)) ->
+  forall c benches groups,
+  no_name_clash benches groups ->
+  snd (run_action c srt List benches groups) = None /\
+  Permutation (painted_leaves (fst (run_action c srt List benches groups))) (flat_list c benches groups).
+Proof. exact list_view. Qed.
+Print Assumptions C12_list_view.
 
 (** Without that guard the property FAILS in divan (finding F8): a module and a
     generic function of the same name share one node; the bench_group's
